@@ -74,6 +74,10 @@ def mk_cmp(op, l, r):
     if op == "<=":
         return mk_not(mk_cmp("<", r, l))
     if op == "in":
+        if r[0] == "dict" and is_const(l) and all(is_const(k) for k, _ in r[1]):
+            return ("c", any(k == l for k, _ in r[1]))
+        if r[0] in ("list", "tuple") and is_const(l) and all(is_const(x) for x in r[1]):
+            return ("c", l in r[1])
         return ("cmp", "in", l, r)
     if op == "not in":
         return mk_not(("cmp", "in", l, r))
@@ -505,6 +509,13 @@ class SymEval:
             return ("c", int(args[0][1]))
         if f == ("glob", "list") and len(args) == 1 and args[0][0] == "list":
             return args[0]
+        # dict.get on a dict display (kwargs of an inlined constructor)
+        if f[0] == "attr" and f[2] == "get" and f[1][0] == "dict" and 1 <= len(args) <= 2 and is_const(args[0]) \
+                and all(is_const(k) for k, _ in f[1][1]):
+            for k, v in f[1][1]:
+                if k == args[0]:
+                    return v
+            return args[1] if len(args) == 2 else ("c", None)
         s = ("call", f, args, kwargs)
         # keyed access to a session table spelt with dict methods: same access path as T[k]
         if f[0] == "attr" and f[2] in ("get", "pop") and f[1][0] == "attr" and f[1][1] == SELF and f[1][2] in TABLE_FIELDS \
